@@ -6,7 +6,7 @@ props = [json.loads(l) for l in open(os.path.join(ROOT, "properties.jsonl"))]
 
 TECH = "deterministic simulation with fault injection (seeded schedule/fault search over the real code in a testing/synctest bubble)"
 
-SIG_NOTE = "Trusts: go1.26.8 toolchain with a five-file runtime overlay (seeded select/map/timer-tie order, no time-slice preemption, mutex waits durably blocked), patched util/broadcast (simulated mutex), the simulated message streams standing in for srpc/yamux/QUIC streams. Interleavings only at simulator-owned points (deliveries, armed scheduling points, operations, faults, ticks). Sampling, not proof."
+SIG_NOTE = "Trusts: go1.26.8 toolchain with a six-file runtime overlay (seeded select/map/timer-tie order, no time-slice preemption, mutex waits durably blocked, mutex starvation clock frozen) and build-time rewritten go statements (goroutine starts are scheduling points), patched util/broadcast (simulated mutex), the simulated message streams standing in for srpc/yamux/QUIC streams. Interleavings only at simulator-owned points (deliveries, armed scheduling points, operations, faults, ticks). Sampling, not proof."
 
 def sim(text, ref, oracle, note=SIG_NOTE):
     return dict(text=text, note=note, ref=ref, technique=TECH + "; oracle: " + oracle)
@@ -16,11 +16,11 @@ CLAIMED = {
             "5 (C19)", "authenticity by membership in the harness-made honest pool (never bifrost's own verifier)"),
  "C20": sim("Real relay Server against scripted clients that submit foreign-signed, tampered, wrong-context, unsigned, stale-epoch and future-epoch requests, unsolicited acks/clears, requests before Init and bad Inits, interleaved with honest traffic, session replacement and stream resets; every RecvMsg the relay emits is checked against what the authenticated owner of the partner stream really signed and submitted, and against the announced epochs.",
             "5 (C20)", "per-emission invariant against harness ground truth + quiescence rule for future epochs"),
- "C21": sim("Real Server and 2-3 real Clients; sends, cancellations, stream resets, and (in a separate lossy configuration) dropped/duplicated wire messages; at the instant a Send returns nil the destination application must already have received exactly that signed message.",
+ "C21": sim("Real Server and 2-3 real Clients; sends, cancellations, peer references released and re-added (message numbering restarts), stream resets, relay crash-restart (session epochs restart), and (in a separate lossy configuration) dropped/duplicated wire messages; at the instant a Send returns nil the destination application must already have received exactly that signed message.",
             "5 (C21)", "trace validation at completion events (success implies earlier byte-equal delivery)"),
  "C22": sim("Real relay Server driven through raw Session streams so that every announcement is observed in wire order; attach, replace (usurp), close, reset, send/ack/clear under parked relay loops; per-delivery epoch agreement, announced-epoch agreement with the relay's real epoch at every quiescent point, and a final probe under the announced epoch.",
             "5 (C22)", "invariants at delivery and at quiescence + verif accessor cross-check + probe"),
- "C23": sim("Bounded liveness by seeded simulation: real relay Server + two real Clients on simulator-owned streams; attach order, operation order, message deliveries, armed scheduling points (relay mutex sites, client broadcast-lock sites), stream resets and clock jumps are all drawn from one tape; after the last fault a fair schedule must complete every Send within 30 simulated minutes.",
+ "C23": sim("Bounded liveness by seeded simulation: real relay Server + two real Clients on simulator-owned streams; attach order, operation order, message deliveries, armed scheduling points (relay mutex sites, client broadcast-lock sites), stream resets, relay crash-restart with empty state and clock jumps are all drawn from one tape; after the last fault a fair schedule must complete every Send within 30 simulated minutes.",
             "5 (C23), 3", "bounded liveness after the last fault"),
  "C24": sim("Real relay Server under churn of raw Listen and Session calls of three parties (open, replace, close, reset, parked handlers); at every quiescent point the announced-minus-withdrawn set of each running Listen call must equal the set of parties with a registered Session toward it.",
             "5 (C24)", "set equality with the reference model at quiescence"),
@@ -33,7 +33,7 @@ CLAIMED = {
             "5 (C09)", "byte-cursor reference model checked on every read + byte conservation at quiescence", "Same trusted base as C08."),
  "C31": sim("Part (a) of the property: the real solicited-stream value under 2-4 concurrent callers of Accept/Close/IsAccepted with the driver deciding every interleaving at the scheduling points before each mutex acquisition; linearizability against the sequential model {accepted, closed} with porcupine, plus the single-owner and never-close-an-accepted-stream invariants; the underlying stream's Close is itself a scheduling point (a Close that blocks while the value's mutex is held or not). Part (b), in one run of three: the C30 world with several local solicitations (different constraints, or colliding classes) matching one incoming stream; each stream end may be accepted by at most one of them.",
             "5 (C31)", "porcupine linearizability of the recorded history + invariants", "Trusts porcupine v1.3.0 and the hook placement."),
- "C33": sim("Real hold-open controller and handler against a fake directive instance with exact strong-reference accounting; value-added/removed callbacks for 1-3 links overlap across links (never reordered within one link) and the asynchronous reference acquisition lands at a driver-chosen later point; at quiescence a strong reference is held iff links exist.",
+ "C33": sim("Real hold-open controller and handler against a fake directive instance with exact strong-reference accounting; value-added/removed callbacks for 1-3 links overlap across links (never reordered within one link) and the asynchronous reference acquisition lands at a driver-chosen later point, the handler's own goroutine starts (acquire, release) are scheduling points; at quiescence a strong reference is held iff links exist.",
             "5 (C33)", "equivalence (refs>0 iff links>0) at quiescence", "Trusts the fake directive.Instance as a faithful stand-in for controllerbus reference counting; callbacks of one value are serialized as a real bus does."),
  "C39": sim("Real key-file loader against a scratch directory that the simulator puts into every state a crash during the non-atomic, non-fsynced write (any prefix, empty, missing) or an operator (garbage, other PEM types, directory, path below a file, symlink loop, dangling symlink, over-long name, missing parent directory, dangling symlink into a missing directory; read-only directory and mode-000 file when not running as root) can leave; sequences of loads and faults from the tape; every load must return a usable key or an error, and identities must be stable across reloads.",
             "5 (C39)", "key-or-error invariant + identity stability against the file-state model", "Crash points are modelled on the resulting file content; no fault is injected inside os.ReadFile/os.WriteFile (no file-system seam). No concurrency dimension."),
@@ -48,10 +48,10 @@ CLAIMED = {
 
  "C27": sim("A real FloodSub router with subscriptions, an honest scripted downstream peer that observes everything the router forwards and a scripted malicious peer that injects tampered, re-targeted, foreign-signed (with and without an embedded public key), same-signature-different-payload, cross-context, empty-channel, unsubscribed-channel and bit-flipped packets between honest ones; every handler callback and every forwarded message is checked against the set of (sender, channel, payload) triples the harness itself signed.",
             "5 (C27)", "per-callback and per-forward membership in the harness-made honest pool"),
- "C28": sim("3-5 real FloodSub routers in a connected mesh drawn from the tape (line, star, ring, random); publishes from every node; link flaps under the same and under new link tuples, router crash and restart, chunked and stalled streams, clock jumps beyond the de-duplication window; no duplicate hand-over within the window, no message sent back to its publisher or to its only source (wire tap ordered by a global event sequence), and after the last fault one fresh message per node and channel is handed exactly once to every subscription reachable through subscribed routers. Router panics are violations.",
+ "C28": sim("3-5 real FloodSub routers in a connected mesh drawn from the tape (line, star, ring, random); publishes from every node; link flaps under the same and under new link tuples, a pair of routers joined by two links at once, router crash and restart, chunked and stalled streams, clock jumps beyond the de-duplication window; no duplicate hand-over within the window, no message sent back to its publisher or to its only source (wire tap ordered by a global event sequence), and after the last fault one fresh message per node and channel is handed exactly once to every subscription reachable through subscribed routers. Router panics are violations.",
             "5 (C28)", "per-delivery counters + wire-tap ordering + exactly-once at reachable subscribers after stabilisation"),
 
- "C29": sim("Two variants per run. links: two full nodes (bus, peer and transport controllers over simlinks, the real pubsub controller driving a real FloodSub) with link failure and re-establishment under the same or a new UUID; for every link pair exactly one side opens the pubsub stream (counted at the stub). subs: a real FloodSub with subscriptions and handlers added, removed and released while traffic for those channels is in flight and the delivery goroutines are parked; no handler runs after its remove function or Release returned, and the announcements seen by a scripted peer end with Subscribe=false exactly when no local subscription remains.",
+ "C29": sim("Two variants per run. links: two full nodes (bus, peer and transport controllers over simlinks, the real pubsub controller driving a real FloodSub) with link failure and re-establishment under the same or a new UUID while link trackers may still be starting (goroutine starts are scheduling points); for every link pair exactly one side opens the pubsub stream (counted at the stub). subs: a real FloodSub with subscriptions and handlers added, removed and released while traffic for those channels is in flight and the delivery goroutines are parked, optionally with a slow peer (small flow-control window, stops reading, publish bursts that fill the router's per-peer queue); no handler runs after its remove function or Release returned, and the announcements seen by a scripted peer end with Subscribe=false exactly when no local subscription remains.",
             "5 (C29)", "opener-count invariant per link + no-callback-after-release invariant + announcement equality at quiescence"),
  "C30": sim("Two full nodes with the real solicitation controller over a simlink pair; SolicitProtocol directives from alphabets whose protocol||context concatenations collide, with peer and transport constraints, added over time on both sides; every accepted stream is identified by its simulator-owned stream pair, both ends must belong to solicitations with identical protocol and context whose constraints admit the link, and every identical admissible pair must end up matched (unless the driver stalled a stream header past the establish deadline).",
             "5 (C30)", "pairwise identity check on both ends of every solicited stream + completeness at quiescence"),
@@ -59,10 +59,10 @@ CLAIMED = {
  "C36": sim("Availability clause only: the real AccessRpcServiceServer.LookupRpcService on a real bus writing to a harness stream while matching and non-matching provider controllers are added and removed in tape order and the stream is cancelled at an arbitrary point; exists/removed must strictly alternate starting with exists, the last one must equal (matching providers > 0) at every quiescent point, idle messages never repeat. The component-ID round-trip clause is a pure function of its input and is not decided by simulation.",
             "5 (C36)", "alternation invariant on the response stream + equality with the provider count at quiescence", "Trusts go1.26.8 + runtime overlay; directive callbacks run under the bus lock and are not scheduling points (their interleaving with the server loop is decided by operation order and fake time only)."),
 
- "C03": sim("Three honest full nodes with the real pconn/QUIC transport, real TLS and quic-go over the simulator's datagram network, plus a harness-built forger endpoint presenting crafted certificate chains (valid control, copied extension, no extension, corrupt ASN.1, wrong signer, two certificates); honest dials under address rebinding, direct HandleConn dial/listen pairs with the expected peer empty, right or wrong; packet loss, duplication, reordering, corruption and clock jumps; every link any transport reports must name an identity that an endpoint which really sent the packets from the link's remote address can prove, a wrong expected peer must give an error and no link.",
-            "5 (C03)", "invariant on every reported link against the packet network's ground truth", "Trusts go1.26.8 + five-file runtime overlay (seeded select/map/timer order, no time-slice preemption, mutex waits durably blocked), testing/cryptotest for repeatable crypto randomness, and the simulated datagram network as a faithful net.PacketConn; quic-go and crypto/tls internals run real, their goroutine interleavings are repeated per seed, not explored. websocket and WebRTC front-ends are not run."),
- "C05": sim("Dialer node, wanted peer X and an impostor I on the QUIC world; the address of X is rebound to I and back before, during and after DialPeerAddr(X, addr) and EstablishLinkWithPeer(X) requests, with bounded packet faults, dial cancellation and clock jumps; every successful dial for X must return a link authenticated as X, every directive value must be a link to X, and after the last fault (X owns its address, impostor gone) a fresh request for X must be satisfied within five simulated minutes under a fair schedule.",
-            "5 (C05)", "safety invariant on dial results + bounded liveness after heal", "Trusts go1.26.8 + five-file runtime overlay (seeded select/map/timer order, no time-slice preemption, mutex waits durably blocked), testing/cryptotest for repeatable crypto randomness, and the simulated datagram network as a faithful net.PacketConn; quic-go and crypto/tls internals run real, their goroutine interleavings are repeated per seed, not explored. websocket and WebRTC front-ends are not run."),
+ "C03": sim("Three honest full nodes with the real pconn/QUIC transport, real TLS and quic-go over the simulator's datagram network, plus a harness-built forger endpoint presenting crafted certificate chains (valid control, copied extension, the victim's live extension replayed, no extension, corrupt ASN.1, wrong signer, two certificates, not self-signed); honest dials to one address with differing expected peers that overlap; honest dials under address rebinding, direct HandleConn dial/listen pairs with the expected peer empty, right or wrong; packet loss, duplication, reordering, corruption and clock jumps; every link any transport reports must name an identity that an endpoint which really sent the packets from the link's remote address can prove, a wrong expected peer must give an error and no link.",
+            "5 (C03)", "invariant on every reported link against the packet network's ground truth", "Trusts go1.26.8 + six-file runtime overlay (seeded select/map/timer order, no time-slice preemption, mutex waits durably blocked, mutex starvation clock frozen) and build-time rewritten go statements (goroutine starts are scheduling points), testing/cryptotest for repeatable crypto randomness, and the simulated datagram network as a faithful net.PacketConn; quic-go and crypto/tls internals run real, their goroutine interleavings are repeated per seed, not explored. websocket and WebRTC front-ends are not run."),
+ "C05": sim("Dialer node, wanted peer X and an impostor I on the QUIC world; the address of X is rebound to I and back before, during and after DialPeerAddr(X, addr) and EstablishLinkWithPeer(X) requests, with bounded packet faults, dial cancellation, overlapping dials of the same address for another peer, dial strings that are aliases of the resolved address, and clock jumps; every successful dial for X must return a link authenticated as X, every directive value must be a link to X, and after the last fault (X owns its address, impostor gone) a fresh request for X must be satisfied within five simulated minutes under a fair schedule.",
+            "5 (C05)", "safety invariant on dial results + bounded liveness after heal", "Trusts go1.26.8 + six-file runtime overlay (seeded select/map/timer order, no time-slice preemption, mutex waits durably blocked, mutex starvation clock frozen) and build-time rewritten go statements (goroutine starts are scheduling points), testing/cryptotest for repeatable crypto randomness, and the simulated datagram network as a faithful net.PacketConn; quic-go and crypto/tls internals run real, their goroutine interleavings are repeated per seed, not explored. websocket and WebRTC front-ends are not run."),
 }
 
 NA_PURE = {
@@ -110,7 +110,7 @@ m = {
  "setup_cmd": "bin/setup.sh",
  "hooks": {
    "guard": "verif",
-   "enable": "go1.26.8 test -c -tags verif -overlay .build/overlay/overlay.json (bin/build.sh); hooks: util/simhook.Yield call lines + verif_state.go accessors",
+   "enable": "go1.26.8 test -c -tags verif -overlay <runtime overlay + rewritten go statements of the current tree> (bin/build.sh); hooks committed in /repo: util/simhook.Yield call lines + verif_state.go accessors; hooks added at build time only (no change to /repo): a simhook.Yield at every goroutine start of the packages in bin/goyield.dirs (tools/goyield)",
    "baseline_off_cmd": "bin/baseline.sh",
    "source_commits": hooks,
    "add_only": True,
